@@ -212,6 +212,30 @@ theorem naryScan_ok (isAnd : Bool) : ∀ (es res : List (Exp α)), allLitsL p es
       obtain ⟨r, hr, rfl⟩ := h
       simp [allLitsL, he.1, naryScan_ok isAnd _ r he.2 hr]
 
+omit hp in
+/-- the keep-mode loop of rooc 9f62afd only drops elements. -/
+theorem naryKeep_ok (isAnd : Bool) : ∀ es : List (Exp α), allLitsL p es = true →
+    allLitsL p (Exp.naryKeep isAnd es) = true
+  | [], _ => by simp [Exp.naryKeep, allLitsL]
+  | e :: es, he => by
+    simp only [allLitsL, Bool.and_eq_true] at he
+    have ih := naryKeep_ok isAnd es he.2
+    cases e
+    case num v =>
+      simp only [Exp.naryKeep]
+      split
+      · exact ih
+      · simp [allLitsL, he.1, ih]
+    all_goals simp [Exp.naryKeep, allLitsL, he.1, ih]
+
+omit hp in
+theorem naryStep_ok (isAnd : Bool) (es res : List (Exp α)) (he : allLitsL p es = true)
+    (h : Exp.naryStep isAnd es = some res) : allLitsL p res = true := by
+  unfold Exp.naryStep at h
+  split at h
+  · injection h with h; subst h; exact naryKeep_ok isAnd es he
+  · exact naryScan_ok isAnd es res he h
+
 theorem naryCore_ok (isAnd : Bool) {es : List (Exp α)} (h : allLitsL p es = true) :
     allLits p (Exp.naryCore isAnd es) = true := by
   unfold Exp.naryCore
@@ -220,10 +244,10 @@ theorem naryCore_ok (isAnd : Bool) {es : List (Exp α)} (h : allLitsL p es = tru
   · simp only [allLits]; split <;> exact hp.ofInt _
   · simp only [allLits]; exact logicNumber_ok hp _
   · rename_i e heq
-    have := naryScan_ok isAnd _ _ hf heq
+    have := naryStep_ok isAnd _ _ hf heq
     simpa [allLitsL] using this
   · rename_i res _ _ heq
-    have := naryScan_ok isAnd _ _ hf heq
+    have := naryStep_ok isAnd _ _ hf heq
     split <;> simpa [allLits] using this
 
 omit hp in
